@@ -264,12 +264,15 @@ VF_API int vf_call_d(void* fn, const uintptr_t* a, double* ret) {
 }
 
 typedef uintptr_t (*vf_fmi)(uintptr_t, uintptr_t, uintptr_t, uintptr_t, uintptr_t, uintptr_t,
-                            double, double, double, double, double, double, double, double);
+                            double, double, double, double, double, double, double, double,
+                            uintptr_t, uintptr_t, uintptr_t, uintptr_t, uintptr_t, uintptr_t);
 typedef double (*vf_fmd)(uintptr_t, uintptr_t, uintptr_t, uintptr_t, uintptr_t, uintptr_t,
-                         double, double, double, double, double, double, double, double);
+                         double, double, double, double, double, double, double, double,
+                         uintptr_t, uintptr_t, uintptr_t, uintptr_t, uintptr_t, uintptr_t);
 
-// mixed call: <= 6 integer/pointer arguments and <= 8 double arguments, in their own order
-// (SysV x86-64 assigns the two register classes independently).  want_double selects the return.
+// mixed call: <= 12 integer/pointer arguments and <= 8 double arguments, each class in its own order
+// (SysV x86-64 assigns the two register classes independently; integer arguments beyond the sixth go on
+// the stack in order, which is where the callee expects its 7th.. integer arguments).  want_double selects the return.
 VF_API int vf_call_mixed(void* fn, const uintptr_t* a, const double* f, int want_double,
                          uintptr_t* iret, double* dret) {
   jmp_buf jb;
@@ -281,11 +284,13 @@ VF_API int vf_call_mixed(void* fn, const uintptr_t* a, const double* f, int want
   }
   vf_jmp = &jb;
   if (want_double) {
-    double r = ((vf_fmd)fn)(a[0], a[1], a[2], a[3], a[4], a[5], f[0], f[1], f[2], f[3], f[4], f[5], f[6], f[7]);
+    double r = ((vf_fmd)fn)(a[0], a[1], a[2], a[3], a[4], a[5], f[0], f[1], f[2], f[3], f[4], f[5], f[6], f[7],
+                           a[6], a[7], a[8], a[9], a[10], a[11]);
     vf_jmp = prev;
     if (dret) *dret = r;
   } else {
-    uintptr_t r = ((vf_fmi)fn)(a[0], a[1], a[2], a[3], a[4], a[5], f[0], f[1], f[2], f[3], f[4], f[5], f[6], f[7]);
+    uintptr_t r = ((vf_fmi)fn)(a[0], a[1], a[2], a[3], a[4], a[5], f[0], f[1], f[2], f[3], f[4], f[5], f[6], f[7],
+                              a[6], a[7], a[8], a[9], a[10], a[11]);
     vf_jmp = prev;
     if (iret) *iret = r;
   }
@@ -298,7 +303,7 @@ VF_API jmp_buf** vf_jmp_slot(void) { return &vf_jmp; }
 //------------------------------------ allocator interposer ----------------------------------------
 
 #define VF_TAB (1u << 18)
-typedef struct { void* p; size_t size; long serial; } vf_blk;
+typedef struct { void* p; size_t size; long serial; void* caller; } vf_blk;
 static vf_blk* vf_tab = 0;
 static pthread_mutex_t vf_mu = PTHREAD_MUTEX_INITIALIZER;
 static long vf_serial = 0;           // number of allocation requests seen
@@ -321,7 +326,16 @@ static inline unsigned vf_hash(void* p) {
   return (unsigned)(x & (VF_TAB - 1));
 }
 
+#include <execinfo.h>
+static int vf_track_callers = 0;
+
 static void* vf_malloc(size_t size) {
+  void* caller = 0;
+  if (vf_track_callers) {
+    void* bt[4];
+    int nb = backtrace(bt, 4);      // [vf_malloc, mju_malloc, caller, ...]
+    caller = nb > 2 ? bt[2] : 0;
+  }
   pthread_mutex_lock(&vf_mu);
   long s = ++vf_serial;
   int fail = (s == vf_fail_at);
@@ -346,7 +360,7 @@ static void* vf_malloc(size_t size) {
   unsigned i;
   for (i = 0; i < VF_TAB; i++) {
     vf_blk* b = &vf_tab[(h + i) & (VF_TAB - 1)];
-    if (!b->p || b->p == (void*)1) { b->p = p; b->size = size; b->serial = s; break; }
+    if (!b->p || b->p == (void*)1) { b->p = p; b->size = size; b->serial = s; b->caller = caller; break; }
   }
   if (i == VF_TAB) vf_tab_overflow++;
   vf_nlive++;
@@ -408,6 +422,23 @@ VF_API int vf_alloc_live(long since, long long* serials, long long* sizes, int c
   return n;
 }
 
+VF_API void vf_alloc_track_callers(int on) { vf_track_callers = on; }
+
+// callers (return address inside the function that called mju_malloc) of live blocks with serial > since
+VF_API int vf_alloc_live_callers(long since, void** callers, int cap) {
+  int n = 0;
+  pthread_mutex_lock(&vf_mu);
+  for (unsigned i = 0; i < VF_TAB; i++) {
+    vf_blk* b = &vf_tab[i];
+    if (b->p && b->p != (void*)1 && b->serial > since) {
+      if (n < cap) callers[n] = b->caller;
+      n++;
+    }
+  }
+  pthread_mutex_unlock(&vf_mu);
+  return n;
+}
+
 //------------------------------------ misc helpers -------------------------------------------------
 
 VF_API void vf_memcpy(void* dst, const void* src, size_t n) { memcpy(dst, src, n); }
@@ -417,3 +448,50 @@ VF_API void vf_set_xml_precision(int p) { _mjPRIVATE__set_xml_precision(p); }
 
 // signature of the driver ABI, bumped when the table formats change
 VF_API int vf_abi(void) { return 3; }
+
+//------------------------------------ task hook: delay injection and assignment log ---------------
+
+#include <sched.h>
+#include <time.h>
+
+extern void (*mjv_taskhook)(int phase, int thread_id, int task_id, int ntask);
+static int vf_th_mode = 0;
+static uint64_t vf_th_rng = 88172645463325252ull;
+static long long vf_th_pre = 0, vf_th_post = 0, vf_th_worker = 0;
+static unsigned vf_th_mask = 0;
+
+static void vf_taskhook(int phase, int thread_id, int task_id, int ntask) {
+  if (phase == 0) {
+    __sync_fetch_and_add(&vf_th_pre, 1);
+    if (thread_id > 0) __sync_fetch_and_add(&vf_th_worker, 1);
+    if (thread_id >= 0 && thread_id < 32) __sync_fetch_and_or(&vf_th_mask, 1u << thread_id);
+    if (vf_th_mode) {
+      uint64_t r = __sync_fetch_and_add(&vf_th_rng, 0x9E3779B97F4A7C15ull);
+      r ^= r >> 29; r *= 0xBF58476D1CE4E5B9ull; r ^= r >> 32;
+      int k = (int)(r % 8);
+      if (k == 1) sched_yield();
+      else if (k == 2) {
+        struct timespec t0, t1; clock_gettime(CLOCK_MONOTONIC, &t0);
+        long ns = 1000 * (1 + (long)((r >> 8) % 50));
+        do { clock_gettime(CLOCK_MONOTONIC, &t1); } while ((t1.tv_sec - t0.tv_sec) * 1000000000L + (t1.tv_nsec - t0.tv_nsec) < ns);
+      } else if (k == 3 && vf_th_mode > 1) {
+        struct timespec ts = {0, 200000}; nanosleep(&ts, 0);
+      }
+    }
+  } else {
+    __sync_fetch_and_add(&vf_th_post, 1);
+  }
+}
+
+VF_API void vf_taskhook_install(int mode, unsigned long long seed) {
+  vf_th_mode = mode;
+  if (seed) vf_th_rng = seed;
+  mjv_taskhook = vf_taskhook;
+}
+
+VF_API void vf_taskhook_uninstall(void) { mjv_taskhook = 0; }
+
+// out: pre, post, invocations on worker threads (id>0), thread-id bitmask
+VF_API void vf_taskhook_stats(long long* out) {
+  out[0] = vf_th_pre; out[1] = vf_th_post; out[2] = vf_th_worker; out[3] = vf_th_mask;
+}
